@@ -198,7 +198,10 @@ class ConcRun:
             for i in range(self.cfg["variants"]):
                 variants.append({"first": self.rng.choice("AB"), "ticks": self.rng.choice([0, 0, 1, 2, 3, 5, 8, 13, 21]), "split_body": self.rng.random() < 0.4,
                                  "ticks2": self.rng.choice([0, 1, 3, 8]), "sched_seed": self.rng.getrandbits(32), "trace": None,
-                                 "p": self.rng.choice([0.05, 0.2, 0.5]), "burst_at": self.rng.choice([None, None] + list(range(1, 60)))})
+                                 "p": self.rng.choice([0.05, 0.2, 0.5]), "burst_at": self.rng.choice([None, None] + list(range(1, 60))),
+                                 # a git commit is ~330 fs events (most of them listdirs between the ref update
+                                 # and the index write), so the parking point is drawn over that whole range
+                                 "worker_burst_at": self.rng.choice([None, None, None] + list(range(1, 60)) + list(range(60, 400, 6)))})
         for var in variants:
             self.one(plan, var, pre_copy, etags, token, refs)
         seen, uniq = set(), []
@@ -259,7 +262,8 @@ class ConcRun:
         loop = srv.loop
         baton = None
         if self.cfg["mode"] == "threads":
-            baton = BatonExecutor(random.Random(var["sched_seed"]), p_switch=var.get("p", 0.35), replay=var.get("trace"), burst_at=var.get("burst_at"))
+            baton = BatonExecutor(random.Random(var["sched_seed"]), p_switch=var.get("p", 0.35), replay=var.get("trace"), burst_at=var.get("burst_at") if not var.get("worker_burst_at") else None,
+                                  worker_burst_at=var.get("worker_burst_at"))
             loop.baton = baton
             FS.hook = baton.fs_yield
         first, second = var["first"], ("B" if var["first"] == "A" else "A")
